@@ -28,6 +28,7 @@ type vpReplayFile struct {
 	Threaded bool              `json:"threaded"`
 	Expect   string            `json:"expect"`
 	Repeat   int               `json:"repeat"`
+	Spin     bool              `json:"spin"` // a goroutine parks at a yield while holding a mutex: step by spinning, not synctest.Wait
 	Race     bool              `json:"race"` // race-detector run: no baton, no recording (both add synchronisation)
 }
 
@@ -296,6 +297,12 @@ func vpReleaseNext(label string) bool {
 	vpR.waiters[label] = q[1:]
 	return true
 }
+func vpHasWaiter(label string) bool {
+	vpR.mu.Lock()
+	defer vpR.mu.Unlock()
+	return len(vpR.waiters[label]) > 0
+}
+
 func vpFreeRun() {
 	vpR.mu.Lock()
 	vpR.freeRun = true
